@@ -3,7 +3,7 @@
 # in scratch worktrees; writes /verif/seeded/RESULTS.tsv  (mutant, property, exit, first violation line)
 cd /verif
 declare -A extra
-extra[C13-m3]="C18"; extra[C07-m3]="C05"; extra[C05-m2]="C11"; extra[C04-m2]="C11"; extra[C10-m2]="C09"; extra[C19-m1]="C02"; extra[C20-m3]="C17"
+extra[C13-m3]="C18"; extra[C07-m3]="C05"; extra[C05-m2]="C11"; extra[C04-m2]="C11"; extra[C10-m2]="C09"; extra[C19-m1]="C02"; extra[C20-m3]="C17"; extra[C02-m5]="C19"; extra[C04-m5]="C11"; extra[C04-m4]="C11"; extra[C07-m5]="C05"
 out=/verif/seeded/RESULTS.tsv
 echo -e "mutant\tproperty\texit\tdetail" > $out
 for d in seeded/C*-m*/; do
